@@ -1,21 +1,62 @@
 package interp
 
+// A model of encoding/json's Marshal, MarshalIndent and Unmarshal over engine values.
+//
+// encoding/json itself is reflection, unsafe and sync.Map caches from end to end and cannot be interpreted,
+// so it is environment, modelled after its documented behaviour and its source:
+//
+//   - the field set of a struct is computed with the library's own rules (typeFields: embedded structs are
+//     flattened breadth first, `json:"-"`, tag names, shallower fields hide deeper ones, a tagged field wins
+//     a tie, an unresolved tie hides every candidate);
+//   - Marshal honours omitempty, nil pointers/maps/slices, Marshaler and TextMarshaler methods (run through
+//     the interpreter), sorted map keys, base64 for []byte, HTML-escaped strings;
+//   - Unmarshal *overlays* the document on the value that is already there, exactly like the library:
+//     fields the document does not mention keep their values, a nil pointer is allocated and a non-nil one
+//     is decoded into, null clears pointers/maps/slices/interfaces and is a no-op elsewhere, an interface
+//     holding a non-nil pointer is decoded through, slice elements below the old length are decoded in
+//     place, map elements are decoded into fresh zero values, the document is validated as a whole before
+//     anything is stored, and a type mismatch skips that value, keeps going and is reported at the end.
+//
+// Text is concrete with one exception: a symbolic integer is written as the symbolic-decimal marker of
+// ext_strdec.go and read back as the same term, so amounts stay symbolic across a Marshal/Unmarshal round
+// trip. A symbolic bool or an omitempty test on a symbolic number forks the path.
+//
+// Not modelled (the path ends as unsupported): the `string` and `omitzero` tag options, json.Number and
+// json.RawMessage targets of symbolic text, symbolic floats, symbolic text inside JSON strings, decoding
+// into a slice whose capacity exceeds its length (stale backing-array elements would show through),
+// channel/func/complex values, Decoder/Encoder streams.
+
 import (
 	"bytes"
+	"encoding/base64"
 	"encoding/json"
 	"fmt"
 	"go/token"
 	"go/types"
+	"os"
 	"reflect"
+	"runtime"
+	"runtime/debug"
 	"sort"
+	"strconv"
 	"strings"
+	"sync"
+	"unicode"
+
+	"gosym/smt"
+
+	"golang.org/x/tools/go/ssa"
 )
 
 func bytesOf(v value) []byte {
 	s := v.([]value)
 	b := make([]byte, len(s))
 	for i := range s {
-		b[i] = s[i].(byte)
+		c, ok := s[i].(byte)
+		if !ok {
+			unsupported("symbolic byte in a byte slice handed to a library model")
+		}
+		b[i] = c
 	}
 	return b
 }
@@ -28,137 +69,1225 @@ func valOfBytes(b []byte) value {
 	return s
 }
 
-func jsonField(st *types.Struct, i int) (name string, skip bool) {
-	f := st.Field(i)
-	tag := reflect.StructTag(st.Tag(i)).Get("json")
-	if tag == "-" {
-		return "", true
-	}
-	name = strings.Split(tag, ",")[0]
-	if name == "" {
-		name = f.Name()
-	}
-	return name, !f.Exported()
+// ---- field sets -------------------------------------------------------------------------------------
+
+type jfield struct {
+	name      string
+	tagged    bool
+	index     []int
+	typ       types.Type // the field's type, a leading unnamed pointer removed
+	omitEmpty bool
 }
 
-func decodeInto(fr *frame, t types.Type, node interface{}) value {
-	// custom unmarshaler?
-	if n, ok := t.(*types.Named); ok {
-		pt := types.NewPointer(n)
-		if sel := fr.i.prog.MethodSets.MethodSet(pt).Lookup(n.Obj().Pkg(), "UnmarshalJSON"); sel != nil && n.Obj().Pkg() != nil {
-			m := fr.i.prog.MethodValue(sel)
-			cell := zero(t)
-			raw, _ := json.Marshal(node)
-			r := call(fr.i, fr, token.NoPos, m, []value{&cell, valOfBytes(raw)})
-			if e, ok := r.(iface); ok && e.t != nil {
-				panic("UnmarshalJSON failed for " + n.String())
-			}
-			return cell
+var jfieldCache sync.Map // types.Type -> []jfield
+
+func junder(t types.Type) types.Type { return types.Unalias(t).Underlying() }
+
+func jisStruct(t types.Type) bool { _, ok := junder(t).(*types.Struct); return ok }
+
+func jtypeName(t types.Type) string {
+	switch t := types.Unalias(t).(type) {
+	case *types.Named:
+		return t.Obj().Name()
+	case *types.Basic:
+		return t.Name()
+	}
+	return ""
+}
+
+func jvalidTag(s string) bool {
+	if s == "" {
+		return false
+	}
+	for _, c := range s {
+		switch {
+		case strings.ContainsRune("!#$%&()*+-./:;<=>?@[]^_{|}~ ", c):
+		case !unicode.IsLetter(c) && !unicode.IsDigit(c):
+			return false
 		}
 	}
-	switch u := t.Underlying().(type) {
-	case *types.Struct:
-		out := zero(t).(structure)
-		obj, ok := node.(map[string]interface{})
-		if !ok {
-			if node == nil {
-				return out
-			}
-			panic(fmt.Sprintf("json: cannot decode %T into struct %v", node, t))
-		}
-		for i := 0; i < u.NumFields(); i++ {
-			f := u.Field(i)
-			name, skip := jsonField(u, i)
-			if skip {
+	return true
+}
+
+// jsonFields mirrors encoding/json.typeFields.
+func jsonFields(t types.Type) []jfield {
+	if c, ok := jfieldCache.Load(t); ok {
+		return c.([]jfield)
+	}
+	type cand struct {
+		typ   types.Type
+		index []int
+	}
+	var fields []jfield
+	current, next := []cand{}, []cand{{typ: t}}
+	var count, nextCount map[string]int
+	visited := map[string]bool{}
+	key := func(t types.Type) string { return types.TypeString(t, nil) }
+	for len(next) > 0 {
+		current, next = next, current[:0]
+		count, nextCount = nextCount, map[string]int{}
+		for _, f := range current {
+			if visited[key(f.typ)] {
 				continue
 			}
-			if f.Embedded() && reflect.StructTag(u.Tag(i)).Get("json") == "" {
-				out[i] = decodeInto(fr, f.Type(), node)
-				continue
-			}
-			for k, v := range obj {
-				if strings.EqualFold(k, name) {
-					out[i] = decodeInto(fr, f.Type(), v)
+			visited[key(f.typ)] = true
+			st := junder(f.typ).(*types.Struct)
+			for i := 0; i < st.NumFields(); i++ {
+				sf := st.Field(i)
+				if sf.Embedded() {
+					et := types.Unalias(sf.Type())
+					if p, ok := et.(*types.Pointer); ok {
+						et = p.Elem()
+					}
+					if !sf.Exported() && !jisStruct(et) {
+						continue
+					}
+				} else if !sf.Exported() {
+					continue
+				}
+				tag := reflect.StructTag(st.Tag(i)).Get("json")
+				if tag == "-" {
+					continue
+				}
+				name, opts, _ := strings.Cut(tag, ",")
+				if !jvalidTag(name) {
+					name = ""
+				}
+				omit := false
+				for _, o := range strings.Split(opts, ",") {
+					switch o {
+					case "omitempty":
+						omit = true
+					case "string", "omitzero":
+						unsupported("encoding/json model: tag option %q on %v.%s", o, f.typ, sf.Name())
+					}
+				}
+				index := append(append([]int{}, f.index...), i)
+				ft := types.Unalias(sf.Type())
+				if p, ok := ft.(*types.Pointer); ok {
+					ft = p.Elem()
+				}
+				if name != "" || !sf.Embedded() || !jisStruct(ft) {
+					tagged := name != ""
+					if name == "" {
+						name = sf.Name()
+					}
+					jf := jfield{name: name, tagged: tagged, index: index, typ: ft, omitEmpty: omit}
+					fields = append(fields, jf)
+					if count[key(f.typ)] > 1 {
+						fields = append(fields, jf)
+					}
+					continue
+				}
+				nextCount[key(ft)]++
+				if nextCount[key(ft)] == 1 {
+					next = append(next, cand{typ: ft, index: index})
 				}
 			}
 		}
-		return out
+	}
+	idxLess := func(a, b []int) bool {
+		for k := range a {
+			if k >= len(b) {
+				return false
+			}
+			if a[k] != b[k] {
+				return a[k] < b[k]
+			}
+		}
+		return len(a) < len(b)
+	}
+	sort.SliceStable(fields, func(i, j int) bool {
+		a, b := fields[i], fields[j]
+		if a.name != b.name {
+			return a.name < b.name
+		}
+		if len(a.index) != len(b.index) {
+			return len(a.index) < len(b.index)
+		}
+		if a.tagged != b.tagged {
+			return a.tagged
+		}
+		return idxLess(a.index, b.index)
+	})
+	out := fields[:0]
+	for adv, i := 0, 0; i < len(fields); i += adv {
+		fi := fields[i]
+		for adv = 1; i+adv < len(fields) && fields[i+adv].name == fi.name; adv++ {
+		}
+		if adv == 1 {
+			out = append(out, fi)
+			continue
+		}
+		grp := fields[i : i+adv]
+		if len(grp[0].index) == len(grp[1].index) && grp[0].tagged == grp[1].tagged {
+			continue // ambiguous: hidden
+		}
+		out = append(out, grp[0])
+	}
+	res := append([]jfield{}, out...)
+	sort.SliceStable(res, func(i, j int) bool { return idxLess(res[i].index, res[j].index) })
+	jfieldCache.Store(t, res)
+	return res
+}
+
+// jmethod finds a method by name in the method set of t.
+func jmethod(fr *frame, t types.Type, name string) *ssa.Function {
+	t = types.Unalias(t)
+	var n *types.Named
+	switch x := t.(type) {
+	case *types.Named:
+		n = x
 	case *types.Pointer:
-		if node == nil {
-			return zero(t)
+		n, _ = types.Unalias(x.Elem()).(*types.Named)
+	}
+	if n == nil || n.Obj().Pkg() == nil {
+		return nil
+	}
+	if _, isIface := n.Underlying().(*types.Interface); isIface {
+		return nil
+	}
+	sel := fr.i.prog.MethodSets.MethodSet(t).Lookup(n.Obj().Pkg(), name)
+	if sel == nil {
+		return nil
+	}
+	return fr.i.prog.MethodValue(sel)
+}
+
+// ---- Marshal ----------------------------------------------------------------------------------------
+
+type jenc struct {
+	fr  *frame
+	buf bytes.Buffer
+}
+
+func jquote(s string) []byte {
+	if hasDec(s) {
+		unsupported("encoding/json model: symbolic decimal inside a JSON string")
+	}
+	b, err := json.Marshal(s)
+	if err != nil {
+		unsupported("encoding/json model: %v", err)
+	}
+	return b
+}
+
+// callMarshaler runs a MarshalJSON / MarshalText method; recv is the receiver (value or address).
+func (e *jenc) callMarshaler(m *ssa.Function, recv value, text bool) {
+	r := call(e.fr.i, e.fr, token.NoPos, m, []value{recv}).(tuple)
+	if er, ok := r[1].(iface); ok && er.t != nil {
+		unsupported("encoding/json model: %s returned an error", m)
+	}
+	raw := r[0].([]value)
+	b := make([]byte, len(raw))
+	for i := range raw {
+		c, ok := raw[i].(byte)
+		if !ok {
+			unsupported("encoding/json model: %s produced symbolic bytes", m)
 		}
-		cell := decodeInto(fr, u.Elem(), node)
-		return &cell
-	case *types.Slice:
-		if node == nil {
-			return zero(t)
-		}
-		arr := node.([]interface{})
-		out := make([]value, len(arr))
-		for i := range arr {
-			out[i] = decodeInto(fr, u.Elem(), arr[i])
-		}
-		return out
+		b[i] = c
+	}
+	if text {
+		e.buf.Write(jquote(string(b)))
+		return
+	}
+	if hasDec(string(b)) {
+		e.buf.Write(b) // a model's marker; not valid JSON text until placeholders are substituted
+		return
+	}
+	var c bytes.Buffer
+	if err := json.Compact(&c, b); err != nil {
+		unsupported("encoding/json model: %s produced invalid JSON", m)
+	}
+	e.buf.Write(c.Bytes())
+}
+
+// isEmpty mirrors isEmptyValue; a symbolic number or bool forks.
+func (e *jenc) isEmpty(t types.Type, v value) bool {
+	switch u := junder(t).(type) {
+	case *types.Array:
+		return u.Len() == 0
 	case *types.Map:
-		if node == nil {
-			return zero(t)
-		}
-		m := makeMap(u.Key(), 0)
-		obj := node.(map[string]interface{})
-		names := make([]string, 0, len(obj))
-		for k := range obj {
-			names = append(names, k)
-		}
-		sort.Strings(names)
-		for _, k := range names {
-			v := obj[k]
-			m.(*hashmap).insert(fr.i, conv(u.Key(), types.Typ[types.String], k), decodeInto(fr, u.Elem(), v))
-		}
-		return m
+		return v.(*hashmap).len() == 0
+	case *types.Slice:
+		return len(v.([]value)) == 0
+	case *types.Pointer:
+		return v.(*value) == nil
+	case *types.Interface:
+		return v.(iface).t == nil
 	case *types.Basic:
-		if node == nil {
-			return zero(t)
+		if s, ok := v.(sym); ok {
+			w, _ := kindWidth(s.k)
+			switch {
+			case w == smt.Bool:
+				return !e.fr.i.X.decide(s.t)
+			case w == smt.FP64:
+				unsupported("encoding/json model: omitempty on a symbolic float")
+			}
+			return e.fr.i.X.decide(smt.Eq(s.t, smt.BV(0, w)))
 		}
 		switch {
 		case u.Info()&types.IsString != 0:
-			return node.(string)
+			return v.(string) == ""
 		case u.Info()&types.IsBoolean != 0:
-			return node.(bool)
-		case u.Info()&types.IsInteger != 0:
-			n, err := node.(json.Number).Int64()
-			if err != nil {
-				panic(err)
+			return !v.(bool)
+		}
+		return reflect.ValueOf(v).IsZero()
+	}
+	return false
+}
+
+func (e *jenc) encode(t types.Type, v value, addr *value) {
+	t = types.Unalias(t)
+	if _, ok := v.(poison); ok {
+		unsupported("encoding/json model: path-dependent don't-care value")
+	}
+	_, isPtr := junder(t).(*types.Pointer)
+	_, isIface := junder(t).(*types.Interface)
+	if !isIface {
+		// Marshaler / TextMarshaler, pointer methods when the value is addressable
+		for _, mt := range []struct {
+			name string
+			text bool
+		}{{"MarshalJSON", false}, {"MarshalText", true}} {
+			if !isPtr && addr != nil {
+				if m := jmethod(e.fr, types.NewPointer(t), mt.name); m != nil {
+					e.callMarshaler(m, addr, mt.text)
+					return
+				}
 			}
-			return conv(t, types.Typ[types.Int64], n)
-		case u.Info()&types.IsFloat != 0:
-			f, _ := node.(json.Number).Float64()
-			return conv(t, types.Typ[types.Float64], f)
+			if m := jmethod(e.fr, t, mt.name); m != nil {
+				if isPtr && v.(*value) == nil {
+					e.buf.WriteString("null")
+					return
+				}
+				e.callMarshaler(m, v, mt.text)
+				return
+			}
 		}
 	}
-	panic(fmt.Sprintf("json: unsupported target type %v", t))
+	switch u := junder(t).(type) {
+	case *types.Basic:
+		if s, ok := v.(sym); ok {
+			w, _ := kindWidth(s.k)
+			switch {
+			case w == smt.Bool:
+				if e.fr.i.X.decide(s.t) {
+					e.buf.WriteString("true")
+				} else {
+					e.buf.WriteString("false")
+				}
+			case w == smt.FP64:
+				unsupported("encoding/json model: symbolic float")
+			default:
+				e.buf.WriteString(decMarker(s))
+			}
+			return
+		}
+		switch {
+		case u.Info()&types.IsString != 0:
+			e.buf.Write(jquote(v.(string)))
+		case u.Info()&(types.IsBoolean|types.IsInteger|types.IsFloat) != 0:
+			b, err := json.Marshal(v)
+			if err != nil {
+				unsupported("encoding/json model: %v", err)
+			}
+			e.buf.Write(b)
+		default:
+			unsupported("encoding/json model: cannot encode %v", t)
+		}
+	case *types.Struct:
+		s := v.(structure)
+		var sp *structure
+		if addr != nil {
+			a := (*addr).(structure)
+			sp = &a
+		}
+		e.buf.WriteByte('{')
+		first := true
+	fields:
+		for _, f := range jsonFields(t) {
+			ct := types.Type(t)
+			cv := value(s)
+			var ca *value
+			if sp != nil {
+				ca = addr
+			}
+			for _, ix := range f.index {
+				if p, ok := junder(ct).(*types.Pointer); ok {
+					pv := cv.(*value)
+					if pv == nil {
+						continue fields
+					}
+					ct, ca, cv = p.Elem(), pv, *pv
+				}
+				st := junder(ct).(*types.Struct)
+				if ca != nil {
+					ca = &(*ca).(structure)[ix]
+					cv = *ca
+				} else {
+					cv = cv.(structure)[ix]
+				}
+				ct = st.Field(ix).Type()
+			}
+			if f.omitEmpty && e.isEmpty(ct, cv) {
+				continue
+			}
+			if !first {
+				e.buf.WriteByte(',')
+			}
+			first = false
+			e.buf.Write(jquote(f.name))
+			e.buf.WriteByte(':')
+			e.encode(ct, cv, ca)
+		}
+		e.buf.WriteByte('}')
+	case *types.Pointer:
+		p := v.(*value)
+		if p == nil {
+			e.buf.WriteString("null")
+			return
+		}
+		e.encode(u.Elem(), *p, p)
+	case *types.Interface:
+		iv := v.(iface)
+		if iv.t == nil {
+			e.buf.WriteString("null")
+			return
+		}
+		e.encode(iv.t, iv.v, nil)
+	case *types.Slice:
+		s := v.([]value)
+		if s == nil {
+			e.buf.WriteString("null")
+			return
+		}
+		if b, ok := junder(u.Elem()).(*types.Basic); ok && b.Kind() == types.Uint8 &&
+			jmethod(e.fr, types.NewPointer(u.Elem()), "MarshalJSON") == nil && jmethod(e.fr, types.NewPointer(u.Elem()), "MarshalText") == nil {
+			e.buf.Write(jquote(base64.StdEncoding.EncodeToString(bytesOf(v))))
+			return
+		}
+		e.buf.WriteByte('[')
+		for i := range s {
+			if i > 0 {
+				e.buf.WriteByte(',')
+			}
+			e.encode(u.Elem(), s[i], &s[i])
+		}
+		e.buf.WriteByte(']')
+	case *types.Array:
+		s := v.(array)
+		e.buf.WriteByte('[')
+		for i := range s {
+			if i > 0 {
+				e.buf.WriteByte(',')
+			}
+			var ea *value
+			if addr != nil {
+				ea = &(*addr).(array)[i]
+			}
+			e.encode(u.Elem(), s[i], ea)
+		}
+		e.buf.WriteByte(']')
+	case *types.Map:
+		m := v.(*hashmap)
+		if m == nil {
+			e.buf.WriteString("null")
+			return
+		}
+		kb, ok := junder(u.Key()).(*types.Basic)
+		if !ok || jmethod(e.fr, u.Key(), "MarshalText") != nil {
+			unsupported("encoding/json model: map key type %v", u.Key())
+		}
+		type kv struct {
+			k string
+			v value
+		}
+		var kvs []kv
+		for _, en := range m.entries() {
+			var ks string
+			switch {
+			case kb.Info()&types.IsString != 0:
+				ks = en.key.(string)
+			case kb.Info()&types.IsInteger != 0:
+				ks = fmt.Sprint(en.key)
+			default:
+				unsupported("encoding/json model: map key type %v", u.Key())
+			}
+			kvs = append(kvs, kv{ks, en.value})
+		}
+		sort.Slice(kvs, func(i, j int) bool { return kvs[i].k < kvs[j].k })
+		e.buf.WriteByte('{')
+		for i, x := range kvs {
+			if i > 0 {
+				e.buf.WriteByte(',')
+			}
+			e.buf.Write(jquote(x.k))
+			e.buf.WriteByte(':')
+			e.encode(u.Elem(), x.v, nil)
+		}
+		e.buf.WriteByte('}')
+	default:
+		unsupported("encoding/json model: cannot encode %v", t)
+	}
+}
+
+func jsonMarshal(fr *frame, x value) []byte {
+	iv := x.(iface)
+	e := &jenc{fr: fr}
+	if iv.t == nil {
+		e.buf.WriteString("null")
+	} else {
+		e.encode(iv.t, iv.v, nil)
+	}
+	return e.buf.Bytes()
+}
+
+// ---- symbolic decimals inside a document ------------------------------------------------------------
+
+// A marker is not a JSON token. Before a document is parsed every marker is replaced by a number literal
+// that is valid JSON, that no canonical encoder emits, and that names the term: 0e-77<id>.
+const jphPrefix = "0e-77"
+
+// A symbolic resource.Quantity is written by its MarshalJSON model (below) as the string "\x00<dec:qKEY>";
+// inside a document it is replaced by the placeholder string content zzvqKEYzzv.
+const jqtyPrefix = "zzvq"
+
+var qtyValues sync.Map // key -> structure (a resource.Quantity)
+
+func qtyMarker(fr *frame, q structure) string {
+	// q.i.value, q.i.scale, q.d.Dec, q.s, q.Format
+	amt := q[0].(structure)
+	if p, _ := q[1].(structure)[0].(*value); p != nil {
+		unsupported("resource.Quantity JSON model: inf.Dec-backed symbolic quantity")
+	}
+	v, ok := amt[0].(sym)
+	if !ok {
+		unsupported("resource.Quantity JSON model: unexpected symbolic part")
+	}
+	if isSym(amt[1]) || isSym(q[3]) {
+		unsupported("resource.Quantity JSON model: symbolic scale or format")
+	}
+	key := fmt.Sprintf("%d_%v_%v", v.t.ID, amt[1], strings.NewReplacer(" ", "", "-", "n").Replace(fmt.Sprint(q[3])))
+	cp := make(structure, len(q))
+	copy(cp, q)
+	cp[0] = structure{amt[0], amt[1]}
+	cp[1] = structure{(*value)(nil)}
+	cp[2] = ""
+	qtyValues.Store(key, cp)
+	return decPrefix + "q" + key + ">"
+}
+
+func jplaceholders(data []byte) ([]byte, map[string]sym) {
+	s := string(data)
+	if !hasDec(s) {
+		return data, nil
+	}
+	terms := map[string]sym{}
+	var out strings.Builder
+	for {
+		i := strings.Index(s, decPrefix)
+		if i < 0 {
+			out.WriteString(s)
+			break
+		}
+		j := strings.IndexByte(s[i:], '>')
+		if j < 0 {
+			unsupported("encoding/json model: truncated symbolic decimal in a document")
+		}
+		id := s[i+len(decPrefix) : i+j]
+		if strings.HasPrefix(id, "q") {
+			if _, ok := qtyValues.Load(id[1:]); !ok {
+				unsupported("encoding/json model: damaged symbolic quantity in a document")
+			}
+			terms[jqtyPrefix+id[1:]+"zzv"] = sym{}
+			out.WriteString(s[:i])
+			out.WriteString(jqtyPrefix + id[1:] + "zzv")
+			s = s[i+j+1:]
+			continue
+		}
+		v, ok := decOf(s[i : i+j+1])
+		if !ok {
+			unsupported("encoding/json model: damaged symbolic decimal in a document")
+		}
+		ph := jphPrefix + id
+		terms[ph] = v
+		out.WriteString(s[:i])
+		out.WriteString(ph)
+		s = s[i+j+1:]
+	}
+	return []byte(out.String()), terms
+}
+
+func junplaceholders(b []byte, terms map[string]sym) []byte {
+	if len(terms) == 0 {
+		return b
+	}
+	s := string(b)
+	// longest placeholders first so that one is never a prefix of another being replaced
+	phs := make([]string, 0, len(terms))
+	for ph := range terms {
+		phs = append(phs, ph)
+	}
+	sort.Slice(phs, func(i, j int) bool { return len(phs[i]) > len(phs[j]) })
+	for _, ph := range phs {
+		if strings.HasPrefix(ph, jqtyPrefix) {
+			s = strings.ReplaceAll(s, ph, decPrefix+"q"+strings.TrimSuffix(ph[len(jqtyPrefix):], "zzv")+">")
+			continue
+		}
+		s = strings.ReplaceAll(s, ph, decPrefix+ph[len(jphPrefix):]+">")
+	}
+	return []byte(s)
+}
+
+// ---- Unmarshal --------------------------------------------------------------------------------------
+
+type jobject struct {
+	keys []string
+	vals []any
+}
+
+func jparse(dec *json.Decoder) (any, error) {
+	tok, err := dec.Token()
+	if err != nil {
+		return nil, err
+	}
+	switch tok := tok.(type) {
+	case json.Delim:
+		switch tok {
+		case '{':
+			o := &jobject{}
+			for dec.More() {
+				k, err := dec.Token()
+				if err != nil {
+					return nil, err
+				}
+				v, err := jparse(dec)
+				if err != nil {
+					return nil, err
+				}
+				o.keys = append(o.keys, k.(string))
+				o.vals = append(o.vals, v)
+			}
+			if _, err := dec.Token(); err != nil {
+				return nil, err
+			}
+			return o, nil
+		case '[':
+			a := []any{}
+			for dec.More() {
+				v, err := jparse(dec)
+				if err != nil {
+					return nil, err
+				}
+				a = append(a, v)
+			}
+			if _, err := dec.Token(); err != nil {
+				return nil, err
+			}
+			return a, nil
+		}
+		return nil, fmt.Errorf("unexpected delimiter %v", tok)
+	default:
+		return tok, nil
+	}
+}
+
+type jdec struct {
+	fr    *frame
+	terms map[string]sym
+	err   string // first type error; decoding continues (saveError)
+}
+
+func (d *jdec) saveErr(format string, a ...any) {
+	if d.err == "" {
+		d.err = fmt.Sprintf(format, a...)
+	}
+}
+
+func (d *jdec) set(t types.Type, addr *value, v value) { store(d.fr.i, t, addr, v) }
+
+func jdescribe(node any) string {
+	switch node.(type) {
+	case nil:
+		return "null"
+	case bool:
+		return "bool"
+	case string:
+		return "string"
+	case json.Number:
+		return "number"
+	case []any:
+		return "array"
+	case *jobject:
+		return "object"
+	}
+	return "value"
+}
+
+// reencode turns a parsed node back into text for a custom unmarshaler.
+func (d *jdec) reencode(node any) []byte {
+	var b bytes.Buffer
+	var w func(n any)
+	w = func(n any) {
+		switch n := n.(type) {
+		case nil:
+			b.WriteString("null")
+		case bool:
+			b.WriteString(strconv.FormatBool(n))
+		case string:
+			q, _ := json.Marshal(n)
+			b.Write(q)
+		case json.Number:
+			b.WriteString(string(n))
+		case []any:
+			b.WriteByte('[')
+			for i := range n {
+				if i > 0 {
+					b.WriteByte(',')
+				}
+				w(n[i])
+			}
+			b.WriteByte(']')
+		case *jobject:
+			b.WriteByte('{')
+			for i := range n.keys {
+				if i > 0 {
+					b.WriteByte(',')
+				}
+				q, _ := json.Marshal(n.keys[i])
+				b.Write(q)
+				b.WriteByte(':')
+				w(n.vals[i])
+			}
+			b.WriteByte('}')
+		}
+	}
+	w(node)
+	return junplaceholders(b.Bytes(), d.terms)
+}
+
+func (d *jdec) checkString(s string) {
+	for ph := range d.terms {
+		if strings.Contains(s, ph) {
+			unsupported("encoding/json model: symbolic decimal inside a JSON string")
+		}
+	}
+}
+
+// value decodes node into the cell at addr, whose static type is t (the library's d.value after indirect).
+func (d *jdec) value(t types.Type, addr *value, node any) {
+	isNull := node == nil
+	// indirect
+	for {
+		t = types.Unalias(t)
+		if _, ok := junder(t).(*types.Interface); ok {
+			iv := (*addr).(iface)
+			if iv.t != nil {
+				if pt, ok := junder(iv.t).(*types.Pointer); ok && iv.v.(*value) != nil {
+					_, elemIsPtr := junder(pt.Elem()).(*types.Pointer)
+					if isNull && elemIsPtr {
+						unsupported("encoding/json model: null into an interface holding a pointer to a pointer")
+					}
+					if !isNull {
+						// the pointer inside the interface is not settable; its methods are consulted, then it is followed
+						p := iv.v.(*value)
+						if m := jmethod(d.fr, iv.t, "UnmarshalJSON"); m != nil {
+							d.callUnmarshaler(m, p, node, false)
+							return
+						}
+						if m := jmethod(d.fr, iv.t, "UnmarshalText"); m != nil {
+							d.callUnmarshaler(m, p, node, true)
+							return
+						}
+						t, addr = pt.Elem(), p
+						continue
+					}
+				}
+			}
+			break
+		}
+		pt, ok := junder(t).(*types.Pointer)
+		if !ok {
+			// a named non-pointer value is addressed so that pointer methods are found
+			if jtypeName(t) != "" {
+				if m := jmethod(d.fr, types.NewPointer(t), "UnmarshalJSON"); m != nil {
+					d.callUnmarshaler(m, addr, node, false)
+					return
+				}
+				if !isNull {
+					if m := jmethod(d.fr, types.NewPointer(t), "UnmarshalText"); m != nil {
+						d.callUnmarshaler(m, addr, node, true)
+						return
+					}
+				}
+			}
+			break
+		}
+		if isNull {
+			break // settable pointer: null clears it
+		}
+		p := (*addr).(*value)
+		if p == nil {
+			cell := zero(pt.Elem())
+			p = &cell
+			d.set(t, addr, p)
+		}
+		if m := jmethod(d.fr, t, "UnmarshalJSON"); m != nil {
+			d.callUnmarshaler(m, p, node, false)
+			return
+		}
+		if m := jmethod(d.fr, t, "UnmarshalText"); m != nil {
+			d.callUnmarshaler(m, p, node, true)
+			return
+		}
+		t, addr = pt.Elem(), p
+	}
+
+	u := junder(t)
+	emptyIface := false
+	if it, ok := u.(*types.Interface); ok {
+		emptyIface = it.NumMethods() == 0
+	}
+	switch n := node.(type) {
+	case nil:
+		switch u.(type) {
+		case *types.Interface, *types.Pointer, *types.Map, *types.Slice:
+			d.set(t, addr, zero(t))
+		}
+	case bool:
+		if b, ok := u.(*types.Basic); ok && b.Info()&types.IsBoolean != 0 {
+			d.set(t, addr, n)
+		} else if emptyIface {
+			d.set(t, addr, iface{t: types.Typ[types.Bool], v: n})
+		} else {
+			d.saveErr("json: cannot unmarshal bool into Go value of type %v", t)
+		}
+	case string:
+		d.checkString(n)
+		switch {
+		case emptyIface:
+			d.set(t, addr, iface{t: types.Typ[types.String], v: n})
+		default:
+			if b, ok := u.(*types.Basic); ok && b.Info()&types.IsString != 0 {
+				if jtypeName(t) == "Number" {
+					unsupported("encoding/json model: json.Number target")
+				}
+				d.set(t, addr, n)
+				return
+			}
+			if s, ok := u.(*types.Slice); ok {
+				if b, ok := junder(s.Elem()).(*types.Basic); ok && b.Kind() == types.Uint8 {
+					raw, err := base64.StdEncoding.DecodeString(n)
+					if err != nil {
+						d.saveErr("json: %v", err)
+						return
+					}
+					d.set(t, addr, valOfBytes(raw))
+					return
+				}
+			}
+			d.saveErr("json: cannot unmarshal string into Go value of type %v", t)
+		}
+	case json.Number:
+		d.number(t, addr, n, emptyIface)
+	case []any:
+		d.array(t, addr, n, emptyIface)
+	case *jobject:
+		d.object(t, addr, n, emptyIface)
+	default:
+		unsupported("encoding/json model: unexpected node %T", node)
+	}
+}
+
+func (d *jdec) callUnmarshaler(m *ssa.Function, recv *value, node any, text bool) {
+	var arg []byte
+	if text {
+		s, ok := node.(string)
+		if !ok {
+			d.saveErr("json: cannot unmarshal %s into Go value via UnmarshalText", jdescribe(node))
+			return
+		}
+		d.checkString(s)
+		arg = []byte(s)
+	} else {
+		arg = d.reencode(node)
+	}
+	r := call(d.fr.i, d.fr, token.NoPos, m, []value{recv, valOfBytes(arg)})
+	if e, ok := r.(iface); ok && e.t != nil {
+		// the library stops at an Unmarshaler error
+		panic(jstop{fmt.Sprintf("json: %s failed", m)})
+	}
+}
+
+type jstop struct{ msg string }
+
+func (d *jdec) number(t types.Type, addr *value, n json.Number, emptyIface bool) {
+	if s, isSym := d.terms[string(n)]; isSym {
+		b, ok := junder(t).(*types.Basic)
+		if !ok || b.Info()&types.IsInteger == 0 {
+			unsupported("encoding/json model: symbolic decimal decoded into %v", t)
+		}
+		w, signed := kindWidth(b.Kind())
+		if w != 64 || !signed {
+			iv := d.fr.i.X.intervals().Of(s.t)
+			var lo, hi float64
+			if signed {
+				lim := float64(int64(1) << uint(w-1))
+				lo, hi = -lim, lim-1
+			} else {
+				lo, hi = 0, float64(uint64(1)<<uint(w))-1
+				if w == 64 {
+					hi = float64(1<<63) - 1
+				}
+			}
+			if !iv.OK || iv.Lo < lo || iv.Hi > hi {
+				unsupported("encoding/json model: symbolic decimal may overflow %v", t)
+			}
+		}
+		d.set(t, addr, conv(t, types.Typ[types.Int64], s))
+		return
+	}
+	if emptyIface {
+		f, err := n.Float64()
+		if err != nil {
+			d.saveErr("json: cannot unmarshal number %s into Go value of type float64", n)
+			return
+		}
+		d.set(t, addr, iface{t: types.Typ[types.Float64], v: f})
+		return
+	}
+	b, ok := junder(t).(*types.Basic)
+	if !ok {
+		d.saveErr("json: cannot unmarshal number into Go value of type %v", t)
+		return
+	}
+	switch {
+	case b.Info()&types.IsInteger != 0 && b.Info()&types.IsUnsigned == 0:
+		w, _ := kindWidth(b.Kind())
+		v, err := strconv.ParseInt(string(n), 10, w)
+		if err != nil {
+			d.saveErr("json: cannot unmarshal number %s into Go value of type %v", n, t)
+			return
+		}
+		d.set(t, addr, conv(t, types.Typ[types.Int64], v))
+	case b.Info()&types.IsInteger != 0:
+		w, _ := kindWidth(b.Kind())
+		v, err := strconv.ParseUint(string(n), 10, w)
+		if err != nil {
+			d.saveErr("json: cannot unmarshal number %s into Go value of type %v", n, t)
+			return
+		}
+		d.set(t, addr, conv(t, types.Typ[types.Uint64], v))
+	case b.Info()&types.IsFloat != 0:
+		bits := 64
+		if b.Kind() == types.Float32 {
+			bits = 32
+		}
+		f, err := strconv.ParseFloat(string(n), bits)
+		if err != nil {
+			d.saveErr("json: cannot unmarshal number %s into Go value of type %v", n, t)
+			return
+		}
+		d.set(t, addr, conv(t, types.Typ[types.Float64], f))
+	case b.Info()&types.IsString != 0 && jtypeName(t) == "Number":
+		unsupported("encoding/json model: json.Number target")
+	default:
+		d.saveErr("json: cannot unmarshal number into Go value of type %v", t)
+	}
+}
+
+var (
+	jAnyType      = types.NewInterfaceType(nil, nil).Complete()
+	jAnySliceType = types.NewSlice(jAnyType)
+	jAnyMapType   = types.NewMap(types.Typ[types.String], jAnyType)
+)
+
+// generic builds the interface{} representation of a node (valueInterface).
+func (d *jdec) generic(node any) value {
+	switch n := node.(type) {
+	case nil:
+		return iface{}
+	case bool:
+		return iface{t: types.Typ[types.Bool], v: n}
+	case string:
+		d.checkString(n)
+		return iface{t: types.Typ[types.String], v: n}
+	case json.Number:
+		if _, isSym := d.terms[string(n)]; isSym {
+			unsupported("encoding/json model: symbolic decimal decoded into interface{} (would be a float64)")
+		}
+		f, err := n.Float64()
+		if err != nil {
+			d.saveErr("json: cannot unmarshal number %s into Go value of type float64", n)
+			return iface{}
+		}
+		return iface{t: types.Typ[types.Float64], v: f}
+	case []any:
+		out := make([]value, len(n))
+		for i := range n {
+			out[i] = d.generic(n[i])
+		}
+		return iface{t: jAnySliceType, v: out}
+	case *jobject:
+		m := makeMap(types.Typ[types.String], 0).(*hashmap)
+		for i := range n.keys {
+			m.insert(d.fr.i, n.keys[i], d.generic(n.vals[i]))
+		}
+		return iface{t: jAnyMapType, v: m}
+	}
+	unsupported("encoding/json model: unexpected node %T", node)
+	return nil
+}
+
+func (d *jdec) array(t types.Type, addr *value, n []any, emptyIface bool) {
+	if emptyIface {
+		d.set(t, addr, d.generic(n))
+		return
+	}
+	switch u := junder(t).(type) {
+	case *types.Slice:
+		s := (*addr).([]value)
+		if cap(s) > len(s) && len(n) > len(s) {
+			unsupported("encoding/json model: decoding into a slice with spare capacity")
+		}
+		for i := range n {
+			if i >= len(s) {
+				s = append(s[:len(s):len(s)], zero(u.Elem()))
+			}
+			d.value(u.Elem(), &s[i], n[i])
+		}
+		if len(n) < len(s) {
+			s = s[:len(n)]
+		}
+		if len(n) == 0 {
+			s = []value{}
+		}
+		d.set(t, addr, s)
+	case *types.Array:
+		a := (*addr).(array)
+		for i := range n {
+			if i < len(a) {
+				d.value(u.Elem(), &a[i], n[i])
+			}
+		}
+		for i := len(n); i < len(a); i++ {
+			d.set(u.Elem(), &a[i], zero(u.Elem()))
+		}
+	default:
+		d.saveErr("json: cannot unmarshal array into Go value of type %v", t)
+	}
+}
+
+func (d *jdec) object(t types.Type, addr *value, n *jobject, emptyIface bool) {
+	if emptyIface {
+		d.set(t, addr, d.generic(n))
+		return
+	}
+	switch u := junder(t).(type) {
+	case *types.Map:
+		kb, ok := junder(u.Key()).(*types.Basic)
+		if !ok || jmethod(d.fr, types.NewPointer(u.Key()), "UnmarshalText") != nil {
+			unsupported("encoding/json model: map key type %v", u.Key())
+		}
+		m := (*addr).(*hashmap)
+		if m == nil {
+			m = makeMap(u.Key(), 0).(*hashmap)
+			d.set(t, addr, m)
+		}
+		for i := range n.keys {
+			d.checkString(n.keys[i])
+			cell := zero(u.Elem())
+			d.value(u.Elem(), &cell, n.vals[i])
+			var k value
+			switch {
+			case kb.Info()&types.IsString != 0:
+				k = conv(u.Key(), types.Typ[types.String], n.keys[i])
+			case kb.Info()&types.IsInteger != 0:
+				kv, err := strconv.ParseInt(n.keys[i], 10, 64)
+				if err != nil {
+					d.saveErr("json: cannot unmarshal number %s into Go value of type %v", n.keys[i], u.Key())
+					continue
+				}
+				k = conv(u.Key(), types.Typ[types.Int64], kv)
+			default:
+				unsupported("encoding/json model: map key type %v", u.Key())
+			}
+			m.insert(d.fr.i, k, cell)
+		}
+	case *types.Struct:
+		fields := jsonFields(t)
+		for i := range n.keys {
+			d.checkString(n.keys[i])
+			var f *jfield
+			for k := range fields {
+				if fields[k].name == n.keys[i] {
+					f = &fields[k]
+					break
+				}
+			}
+			if f == nil {
+				for k := range fields {
+					if strings.EqualFold(fields[k].name, n.keys[i]) {
+						f = &fields[k]
+						break
+					}
+				}
+			}
+			if f == nil {
+				continue
+			}
+			ct, ca := types.Type(t), addr
+			for _, ix := range f.index {
+				if p, ok := junder(ct).(*types.Pointer); ok {
+					pv := (*ca).(*value)
+					if pv == nil {
+						if en, ok := types.Unalias(p.Elem()).(*types.Named); ok && !en.Obj().Exported() {
+							unsupported("encoding/json model: embedded pointer to an unexported struct")
+						}
+						cell := zero(p.Elem())
+						pv = &cell
+						d.set(ct, ca, pv)
+					}
+					ct, ca = p.Elem(), pv
+				}
+				st := junder(ct).(*types.Struct)
+				ca = &(*ca).(structure)[ix]
+				ct = st.Field(ix).Type()
+			}
+			d.value(ct, ca, n.vals[i])
+		}
+	default:
+		d.saveErr("json: cannot unmarshal object into Go value of type %v", t)
+	}
+}
+
+func jsonUnmarshal(fr *frame, data []byte, target iface) (res value) {
+	text, terms := jplaceholders(data)
+	if !json.Valid(text) {
+		var probe any
+		err := json.Unmarshal(text, &probe)
+		msg := "invalid JSON"
+		if err != nil {
+			msg = err.Error()
+		}
+		return mkErr(fr, msg)
+	}
+	dec := json.NewDecoder(bytes.NewReader(text))
+	dec.UseNumber()
+	node, err := jparse(dec)
+	if err != nil {
+		return mkErr(fr, err.Error())
+	}
+	if target.t == nil {
+		return mkErr(fr, "json: Unmarshal(nil)")
+	}
+	pt, ok := junder(target.t).(*types.Pointer)
+	if !ok || target.v.(*value) == nil {
+		return mkErr(fr, "json: Unmarshal(non-pointer or nil "+target.t.String()+")")
+	}
+	d := &jdec{fr: fr, terms: terms}
+	defer func() {
+		if r := recover(); r != nil {
+			if st, ok := r.(jstop); ok {
+				res = mkErr(fr, st.msg)
+				return
+			}
+			panic(r)
+		}
+	}()
+	// the library starts at the pointer, consults its methods and follows it: the same as starting at the
+	// addressed target, whose pointer methods value() consults first
+	d.value(pt.Elem(), target.v.(*value), node)
+	if d.err != "" {
+		return mkErr(fr, d.err)
+	}
+	return iface{}
+}
+
+// jguard turns a Go runtime error inside the model (a bug of the model, not of the target) into an
+// engine error instead of letting it pass for a panic of the target program.
+func jguard(name string, f externalFn) externalFn {
+	return func(fr *frame, a []value) (res value) {
+		defer func() {
+			if r := recover(); r != nil {
+				if re, ok := r.(runtime.Error); ok {
+					if os.Getenv("GOSYM_JSON_DEBUG") != "" {
+						fmt.Fprintf(os.Stderr, "%s: %v\n%s\n", name, re, debug.Stack())
+					}
+					panic(engineAbort{"engine-error", name + " model: " + re.Error()})
+				}
+				panic(r)
+			}
+		}()
+		return f(fr, a)
+	}
 }
 
 func init() {
-	externals["encoding/json.Unmarshal"] = func(fr *frame, a []value) (res value) {
-		data := bytesOf(a[0])
-		target := a[1].(iface)
-		dec := json.NewDecoder(bytes.NewReader(data))
-		dec.UseNumber()
-		var node interface{}
-		if err := dec.Decode(&node); err != nil {
-			return mkErr(fr, err.Error())
+	const q = "k8s.io/apimachinery/pkg/api/resource.Quantity"
+	// The canonical text of a quantity parses back to the same number (the package's documented
+	// round-trip guarantee); with a symbolic amount the text itself cannot be built, so the pair
+	// MarshalJSON / UnmarshalJSON is modelled as that round trip: the same amount, scale and format come
+	// back. (The real parser may pick another scale for the same number, e.g. "1k" for 1000; amount,
+	// comparison, Value and MilliValue are the same.)
+	externals["("+q+").MarshalJSON"] = func(fr *frame, a []value) value {
+		if !hasSym(a[0], 0) {
+			m := fr.i.lookupValueMethod("k8s.io/apimachinery/pkg/api/resource", "Quantity", "MarshalJSON")
+			fr.i.bypass = m
+			return callSSAraw(fr.i, fr, token.NoPos, m, a, nil)
 		}
-		defer func() {
-			if r := recover(); r != nil {
-				if ea, ok := r.(engineAbort); ok {
-					panic(ea)
-				}
-				res = mkErr(fr, fmt.Sprint(r))
+		return tuple{valOfBytes([]byte("\"" + qtyMarker(fr, a[0].(structure)) + "\"")), iface{}}
+	}
+	externals["(*"+q+").UnmarshalJSON"] = func(fr *frame, a []value) value {
+		raw := a[1].([]value)
+		text := make([]byte, 0, len(raw))
+		for _, c := range raw {
+			b, ok := c.(byte)
+			if !ok {
+				unsupported("resource.Quantity JSON model: symbolic bytes")
 			}
-		}()
-		pt := target.t.Underlying().(*types.Pointer)
-		v := decodeInto(fr, pt.Elem(), node)
-		store(fr.i, pt.Elem(), target.v.(*value), v)
-		return iface{}
+			text = append(text, b)
+		}
+		if st := string(text); hasDec(st) {
+			id := strings.TrimSuffix(strings.TrimPrefix(st, "\""+decPrefix+"q"), ">\"")
+			v, ok := qtyValues.Load(id)
+			if !ok || len(id)+len(decPrefix)+4 != len(st) {
+				unsupported("resource.Quantity JSON model: text that embeds a symbolic quantity")
+			}
+			recv := a[0].(*value)
+			qt := fr.i.prog.ImportedPackage("k8s.io/apimachinery/pkg/api/resource").Type("Quantity").Type()
+			cp := append(structure{}, v.(structure)...)
+			cp[0] = append(structure{}, cp[0].(structure)...)
+			cp[1] = append(structure{}, cp[1].(structure)...)
+			store(fr.i, qt, recv, cp)
+			return iface{}
+		}
+		m := fr.i.lookupMethod("k8s.io/apimachinery/pkg/api/resource", "Quantity", "UnmarshalJSON")
+		fr.i.bypass = m
+		return callSSAraw(fr.i, fr, token.NoPos, m, a, nil)
+	}
+	defer func() {
+		for _, n := range []string{"encoding/json.Unmarshal", "encoding/json.Marshal", "encoding/json.MarshalIndent", "encoding/json.Valid"} {
+			externals[n] = jguard(n, externals[n])
+		}
+	}()
+	externals["encoding/json.Unmarshal"] = func(fr *frame, a []value) value {
+		return jsonUnmarshal(fr, bytesOf(a[0]), a[1].(iface))
+	}
+	externals["encoding/json.Marshal"] = func(fr *frame, a []value) value {
+		return tuple{valOfBytes(jsonMarshal(fr, a[0])), iface{}}
+	}
+	externals["encoding/json.MarshalIndent"] = func(fr *frame, a []value) value {
+		raw, terms := jplaceholders(jsonMarshal(fr, a[0]))
+		var out bytes.Buffer
+		if err := json.Indent(&out, raw, a[1].(string), a[2].(string)); err != nil {
+			unsupported("encoding/json model: %v", err)
+		}
+		return tuple{valOfBytes(junplaceholders(out.Bytes(), terms)), iface{}}
+	}
+	externals["encoding/json.Valid"] = func(fr *frame, a []value) value {
+		text, _ := jplaceholders(bytesOf(a[0]))
+		return json.Valid(text)
 	}
 }
